@@ -106,3 +106,31 @@ func (mc *memberCore) shouldAcceptMessage(
 
 	return !isMessageFromSelf && isSenderValid && isSenderAccepted
 }
+
+// shouldAcceptMessageFrom indicates whether the given member should accept
+// a message from the given sender in a phase whose own verification step may
+// have just disqualified that sender. The sender is accepted if it is one of
+// the members that were operating when the phase started. Accusations must be
+// collected from all of them: a member that accuses (and disqualifies) a peer
+// still has to resolve the accusations published by that peer in the same
+// phase, the same way all the other members do.
+func (mc *memberCore) shouldAcceptMessageFrom(
+	phaseSenders []group.MemberIndex,
+	senderID group.MemberIndex,
+	senderPublicKey []byte,
+) bool {
+	isMessageFromSelf := senderID == mc.ID
+	isSenderValid := mc.membershipValidator.IsValidMembership(
+		senderID,
+		senderPublicKey,
+	)
+	isSenderAccepted := false
+	for _, phaseSender := range phaseSenders {
+		if phaseSender == senderID {
+			isSenderAccepted = true
+			break
+		}
+	}
+
+	return !isMessageFromSelf && isSenderValid && isSenderAccepted
+}
